@@ -22,7 +22,12 @@ RULE = ("guided random schedules of the mailbox World (profiles: set/allocate/in
         "(outcome, 13 machine states, commands, app events); non-trivial = the run got beyond code entry and exchanged "
         "at least one server frame; plus oracle-only runs of two clients on their REAL connection stack (real ClientService, "
         "real autobahn handshake with the real server protocol, messages up to 700 kB, refused/unanswered reconnection "
-        "attempts); distinct = distinct canonical traces")
+        "attempts); plus the statement x exception-class table of unusable PAKE bodies (every statement of got_pake / "
+        "bytes_to_dict / hexstr_to_bytes / SPAKE2 finish made to raise each class it can raise), each body alone, behind "
+        "queued messages, after the honest exchange, and stashed until the application's choose_words(), compared with the "
+        "model step by step (tags pake-raise:<statement>:<class>); plus recorded-only runs (tags info:...) of a holder of "
+        "the code sealing unparsable `version` plaintexts and of a second side posting `add` frames with non-hex bodies / "
+        "non-string or non-ASCII phases and sides through the real server; distinct = distinct canonical traces")
 
 
 def cases(rng, tier):
@@ -34,7 +39,9 @@ def cases(rng, tier):
     # hostile participants: several fixed walks (a third side posting unusable PAKE bodies and undecryptable bytes, with
     # and without an honest peer)
     out.extend(mc.hostile_corpus())
+    out.extend(pake_raise_corpus(rng, tier))
     out.extend(mc.connection_corpus())
+    out.extend(keyholder_cases())
     for i in range(24 if tier == "quick" else 120):
         out.append(dict(seed=2000 + i, n=100, profile="third-alone" if i % 2 else "third"))
     for _ in range(n):
@@ -141,6 +148,352 @@ def run_real(case):
         return Result([], [], viol, ["real"] + ["real:verdict:" + str(v) for v in verdicts], True, info=dict(trace=trace))
 
 
+# ---------------------------------------------------------------------------
+# Every way a participant-controlled PAKE body can make a statement of the key exchange raise
+#
+# `_SortedKey.got_pake(body)` runs, on bytes that ANY mailbox participant chooses (a conformant server relays them):
+#     bytes_to_dict:   b.decode("utf-8") ; json.loads(...) ; assert isinstance(d, dict)
+#     payload["pake_v1"]
+#     hexstr_to_bytes: assert isinstance(hexstr, str) ; hexstr.encode("ascii") ; unhexlify(...)
+# and `compute_key` then runs SPAKE2's finish(): side byte (OffSides / assert), decodepoint (int("") / NotOnCurve),
+# subgroup checks (ValueError), reflection check (ReflectionThwarted).  Whatever any of these statements raises, the
+# message is the SAME event of the environment model — an unusable PAKE (`nofield` / `invalid`) — and must end in
+# `scared`, never in an exception that escapes to `ws_message` (→ Boss.error → close() reports the exception class)
+# or to the application (`choose_words`).  The table below has, for each statement, a body that makes exactly that
+# statement raise, for every exception class the statement can raise; `pake_stage` re-walks the statements in the
+# harness's own words and tags each delivered body with `pake-raise:<statement>:<exception class>`.
+
+def _stranger_element():
+    from spake2 import SPAKE2_Symmetric
+    return SPAKE2_Symmetric(b"9-some-stranger", idSymmetric=b"x",
+                            entropy_f=lambda n: bytes((i * 37 + 11) % 256 for i in range(n))).start()
+
+
+def pake_bodies():
+    """name -> body bytes ("REFLECT": our own PAKE message, filled in by the Observer)"""
+    from spake2 import ed25519_basic as ed
+    st = _stranger_element()                                     # b"S" + a valid element
+    order2 = bytes.fromhex("ec" + "ff" * 30 + "7f")              # (0, -1)
+    order8 = bytes.fromhex("26e8958fc2b227b045c3f489f2ef98f0d5dfac05d3c63339b13802886d53fc05")
+    mixed = ed.bytes_to_unknown_group_element(order2).add(ed.bytes_to_element(st[1:])).to_bytes()   # valid + torsion
+
+    def J(hexstr):
+        return ('{"pake_v1": "%s"}' % hexstr).encode("ascii")
+    B = {
+        # --- b.decode("utf-8"): UnicodeDecodeError
+        "utf8:ff-fe": b"\xff\xfe",
+        "utf8:truncated-sequence": b'{"pake_v1": "\xc3',
+        "utf8:overlong": b'{"pake_v1": "\xc0\xaf"}',
+        "utf8:surrogate-bytes": b'{"pake_v1": "\xed\xa0\x80"}',
+        "utf8:latin1": b'{"pake_v1": "\xe9\xe9"}',
+        "utf8:utf16": '{"pake_v1": "00"}'.encode("utf-16"),
+        # --- json.loads: JSONDecodeError
+        "json:empty": b"",
+        "json:blank": b"  \n",
+        "json:garbage": b"hello",
+        "json:trailing-data": J("00") + b" x",
+        "json:bom": b"\xef\xbb\xbf" + J("00"),
+        "json:single-quotes": b"{'pake_v1': '00'}",
+        "json:unterminated": b'{"pake_v1": "00"',
+        "json:raw-newline-in-string": b'{"pake_v1": "0\n0"}',
+        "json:bad-escape": b'{"pake_v1": "\\x00"}',
+        # --- json.loads: ValueError that is NOT a JSONDecodeError (integer literal over the int/str digit limit)
+        "json:huge-int-value": b'{"pake_v1": ' + b"1" * 5000 + b"}",
+        "json:huge-int-elsewhere": b'{"x": ' + b"7" * 5000 + b', "pake_v1": "00"}',
+        "json:huge-int-top": b"-" + b"9" * 4400,
+        "json:huge-int-in-list": b"[" + b"3" * 4301 + b"]",
+        # --- json.loads: RecursionError
+        "json:deep-list-5000": b"[" * 5000,
+        "json:deep-list-100000": b"[" * 100000,
+        "json:deep-object": b'{"a":' * 5000,
+        "json:deep-balanced": b"[" * 3000 + b"]" * 3000,
+        "json:deep-inside-value": b'{"pake_v1": ' + b"[" * 100000 + b"]" * 100000 + b"}",
+        # --- assert isinstance(d, dict): AssertionError
+        "top:list": b"[]", "top:int": b"5", "top:string": b'"pake_v1"', "top:null": b"null", "top:true": b"true",
+        "top:float": b"1.5", "top:nan": b"NaN", "top:infinity": b"1e99999",
+        # --- payload["pake_v1"]: KeyError
+        "key:empty-object": b"{}", "key:other": b'{"pake_v2": "00"}', "key:case": b'{"PAKE_V1": "00"}',
+        "key:trailing-space": b'{"pake_v1 ": "00"}',
+        # --- assert isinstance(hexstr, str): AssertionError
+        "val:int": b'{"pake_v1": 5}', "val:null": b'{"pake_v1": null}', "val:list": b'{"pake_v1": ["00"]}',
+        "val:object": b'{"pake_v1": {}}', "val:bool": b'{"pake_v1": true}', "val:float": b'{"pake_v1": 1.5}',
+        "val:nan": b'{"pake_v1": NaN}', "val:duplicate-key-last-wins": b'{"pake_v1": "00", "pake_v1": 5}',
+        # --- hexstr.encode("ascii"): UnicodeEncodeError
+        "ascii:raw-utf8": '{"pake_v1": "éé"}'.encode("utf-8"),
+        "ascii:escaped": b'{"pake_v1": "\\u00e9\\u00e9"}',
+        "ascii:lone-surrogate": b'{"pake_v1": "\\ud800"}',
+        "ascii:fullwidth-digits": '{"pake_v1": "００"}'.encode("utf-8"),
+        "ascii:astral": b'{"pake_v1": "\\ud83d\\ude00"}',
+        "ascii:hex-then-nonascii": ('{"pake_v1": "%sé"}' % st.hex()).encode("utf-8"),
+        # --- unhexlify: binascii.Error
+        "hex:odd-length": J("000"), "hex:not-hex": J("zz"), "hex:space": J("00 00"), "hex:0x": J("0x00"),
+        "hex:nul": b'{"pake_v1": "\\u0000\\u0000"}', "hex:trailing-newline": b'{"pake_v1": "00\\n"}',
+        # --- SPAKE2 finish(): side byte
+        "el:empty-string": J(""),                      # other_side == b"": assert
+        "el:side-A": J("41" + st[1:].hex()),           # OffSides
+        "el:side-B": J("42" + st[1:].hex()),           # OffSides
+        "el:side-00": J("00" + st[1:].hex()),          # assert
+        "el:one-byte-00": J("00"),
+        "el:33-zero-bytes": J("00" * 33),
+        # --- decodepoint / subgroup checks
+        "el:side-only": J("53"),                       # int(b"", 16): ValueError
+        "el:zero": J("5301" + "00" * 31),              # ValueError: element was Zero
+        "el:order-2": J("53" + order2.hex()), "el:order-4": J("53" + "00" * 32), "el:order-8": J("53" + order8.hex()),
+        "el:valid-plus-torsion": J("53" + mixed.hex()),
+        "el:all-ff": J("53" + "ff" * 32),
+        "el:not-on-curve": J("5302" + "00" * 31),
+        "el:truncated-31": J(st[:-1].hex()),
+        "el:uppercase-garbage": J("53" + "AB" * 32),
+        "el:reflected": "REFLECT",                     # ReflectionThwarted
+        # --- accepted by SPAKE2 (a key nobody shares): the `stranger` class
+        "ok:stranger": J(st.hex()), "ok:stranger-uppercase": J(st.hex().upper()), "ok:trailing-bytes": J(st.hex() + "0001"),
+        "ok:identity-short": J("5301"), "ok:identity-noncanonical": J("53ee" + "ff" * 30 + "7f"),
+        "ok:extra-keys": ('{"pake_v1": "%s", "pake_v2": [1, {"x": null}]}' % st.hex()).encode("ascii"),
+    }
+    return B
+
+
+def _pake_stage(body, sp=None):
+    """which statement of got_pake / bytes_to_dict / hexstr_to_bytes / SPAKE2.finish raises what on this body:
+    (statement, exception class name) or ("accepted", "-").  `sp`: the client's own SPAKE2 state (for the reflection check)."""
+    import binascii
+    import copy
+    import json
+    try:
+        s = body.decode("utf-8")
+    except Exception as e:
+        return "decode", type(e).__name__
+    try:
+        d = json.loads(s)
+    except Exception as e:
+        return "loads", type(e).__name__
+    if not isinstance(d, dict):
+        return "isdict", "AssertionError"
+    try:
+        v = d["pake_v1"]
+    except Exception as e:
+        return "index", type(e).__name__
+    if not isinstance(v, str):
+        return "isstr", "AssertionError"
+    try:
+        a = v.encode("ascii")
+    except Exception as e:
+        return "ascii", type(e).__name__
+    try:
+        el = binascii.unhexlify(a)
+    except Exception as e:
+        return "unhexlify", type(e).__name__
+    if sp is not None:
+        probe = copy.deepcopy(sp)
+    else:
+        from spake2 import SPAKE2_Symmetric
+        probe = SPAKE2_Symmetric(b"probe", idSymmetric=b"probe")
+        probe.start()
+    try:
+        probe.finish(el)
+    except Exception as e:
+        msg = str(e)
+        what = ("zero" if "was Zero" in msg else "wrong-group" if "right group" in msg else "empty" if "invalid literal" in msg
+                else "side" if isinstance(e, AssertionError) or "Symmetric" in msg else "")
+        return "finish", type(e).__name__ + (":" + what if what else "")
+    return "accepted", "-"
+
+
+pake_stage = getattr(mc, "pake_stage", None) or _pake_stage      # one definition once the shared module has it
+
+
+class FineObserver(mc.Observer):
+    """the shared Observer, which classifies every PAKE of another participant by the exact statement walk (the shared
+    one decodes with bytes.fromhex, which tolerates white space that unhexlify does not) and says which statement raises"""
+
+    def pake_kind(self, body):
+        sp = getattr(self.c.boss._K._SK, "_sp", None)
+        if "pake" in self.c.boss._M._processed or getattr(sp, "_finished", False):
+            self.tags.add("pake-raise:duplicate-phase:never-parsed")
+            return super().pake_kind(body)
+        stage, exc = pake_stage(body, sp)
+        k = "good" if stage == "accepted" else "invalid" if stage == "finish" else "nofield"
+        self.tags.add("pake-raise:%s:%s" % (stage, exc))
+        self.tags.add("pake-class:" + k)
+        return k
+
+
+def replay_fine(ops, welcome_error=None, npeers=None, seed=0):
+    """mailbox_corr.replay with the FineObserver"""
+    from ..worlds.mailbox import World
+    if npeers is None:
+        npeers = max([op[1] for op in ops if len(op) > 1 and isinstance(op[1], int)] + [0])
+    with World(seed=seed, welcome_error=welcome_error) as W:
+        mc.patch_world_internal_names(W)
+        W.add_client(delegated=True)
+        for _ in range(npeers):
+            W.add_client(delegated=True)
+        ob = FineObserver(W, 0)
+        for op in ops:
+            ob.do(op)
+        return ob, mc.summarize(W, ob)
+
+
+PAKE_PLACEMENTS = ("alone", "stashed", "queued", "second", "stashed+version")
+
+
+def pake_raise_case(name, bodyhex, placement):
+    T = "7h1rd51de"
+    code = "4-purple-sausages"
+    junk = "00" * 60
+    end = [["api", 0, "close"], ["pump"], ["finish"]]
+    alone = [["api", 0, "set_code", code], ["open", 0], ["pump"]]
+    inj = [["inject", 0, T, "pake", bodyhex], ["pump"]]
+    stash = [["api", 0, "input_code"], ["api", 0, "choose_nameplate", "4"], ["open", 0], ["pump"]] + inj
+    npeers = 0
+    if placement == "alone":
+        # the code is known, the mailbox open: got_pake runs inside ws_message
+        ops = alone + inj + end
+    elif placement == "queued":
+        # … with two undecryptable messages waiting in Order, which are drained right after (Receive is already scared / has no key)
+        ops = alone + [["inject", 0, T, "version", junk], ["inject", 0, T, "0", junk]] + inj + end
+    elif placement == "second":
+        # after the honest key exchange: a second `pake` is a duplicate phase and must never reach Key
+        ops = ([["api", 0, "set_code", code], ["api", 1, "set_code", code], ["open", 0], ["open", 1], ["pump"]] + inj
+               + [["inject", 0, T, "1", junk], ["pump"]] + end)
+        npeers = 1
+    elif placement == "stashed":
+        # the nameplate is chosen, the words are not: Key stashes the body; got_pake runs inside the APPLICATION's
+        # choose_words() call
+        ops = stash + [["api", 0, "choose_words", "purple-sausages"], ["pump"]] + end
+    else:
+        ops = stash + [["inject", 0, T, "version", junk], ["pump"], ["api", 0, "choose_words", "purple-sausages"], ["pump"]] + end
+    return dict(ops=ops, npeers=npeers, profile="pakeraise:%s:%s" % (placement, name))
+
+
+def pake_raise_corpus(rng, tier):
+    """quick: every body alone and stashed, plus one of the other three placements drawn per body; thorough: all five"""
+    out = []
+    for name, body in sorted(pake_bodies().items()):
+        bodyhex = body if body == "REFLECT" else body.hex()
+        if tier == "quick":
+            pls = ["alone", "stashed", rng.choice(PAKE_PLACEMENTS[2:])]
+        else:
+            pls = list(PAKE_PLACEMENTS)
+        for pl in pls:
+            out.append(pake_raise_case(name, bodyhex, pl))
+    return out
+
+
+# ---------------------------------------------------------------------------
+# Participant-controlled bytes that are parsed only AFTER decryption, and frame fields the server relays unchecked
+#
+# `Boss.process_version` does bytes_to_dict(plaintext) on the peer's `version` message.  The plaintext is only reached when
+# the body opens under the session key, so only a HOLDER OF OUR CODE can choose it: a wormhole client making legal API
+# calls always sends dict_to_bytes(<dict>), which parses.  A participant that has the code but does not run this
+# code base is outside the environment fixed in DESIGN §6/§11.7 (its `good` messages are those a wormhole client could
+# have produced).  What the unchanged tree does with such plaintexts is recorded in the evidence (tags
+# `info:keyholder:<plaintext class>:<verdict>`), NOT judged: see KEYHOLDER_STRICT.
+
+KEYHOLDER_STRICT = False      # True: an undocumented verdict / escaped exception in these runs is a violation
+
+KEYHOLDER_VERSIONS = {
+    "honest": None,
+    "not-utf8": b"\xff\xfe",
+    "not-json": b"hello",
+    "empty": b"",
+    "list": b"[]",
+    "huge-int": b'{"app_versions": ' + b"1" * 5000 + b"}",
+    "deep": b'{"app_versions": ' + b"[" * 100000 + b"]" * 100000 + b"}",
+    "app-versions-not-a-dict": b'{"app_versions": [1, 2]}',
+    "can-dilate-not-a-list": b'{"can-dilate": 5, "app_versions": {}}',
+}
+def _frame_fields():
+    ok = ('{"pake_v1": "%s"}' % _stranger_element().hex()).encode("ascii").hex()      # an element SPAKE2 accepts
+    return {
+        "body-not-hex": dict(adds=[dict(phase="pake", body="zz")]),
+        "body-odd-length": dict(adds=[dict(phase="0", body="000")]),
+        "body-not-ascii": dict(adds=[dict(phase="version", body="éé")]),
+        "body-int": dict(adds=[dict(phase="pake", body=5)]),
+        "body-null": dict(adds=[dict(phase="pake", body=None)]),
+        "phase-int": dict(adds=[dict(phase=5, body="00")]),
+        "phase-null": dict(adds=[dict(phase=None, body="00")]),
+        "phase-not-ascii-alone": dict(adds=[dict(phase="é", body="00")]),
+        # … the same, followed by a PAKE that SPAKE2 accepts: a key exists, Order drains its queue into Receive
+        "phase-not-ascii-then-stranger-pake": dict(adds=[dict(phase="é", body="00"), dict(phase="pake", body=ok)]),
+        "side-not-ascii-unusable-pake": dict(side="é", adds=[dict(phase="pake", body="7b7d")]),
+        "side-not-ascii-stranger-pake-then-version": dict(side="é", adds=[dict(phase="pake", body=ok), dict(phase="version", body="00" * 40)]),
+        "ascii-control": dict(side="7h1rd51de", adds=[dict(phase="pake", body=ok), dict(phase="version", body="00" * 40)]),
+    }
+
+
+def keyholder_cases():
+    out = [dict(kind="keyholder", what="version", name=n) for n in sorted(KEYHOLDER_VERSIONS)]
+    out += [dict(kind="keyholder", what="frame", name=n) for n in sorted(_frame_fields())]
+    return out
+
+
+def run_keyholder(case):
+    from wormhole._key import derive_phase_key, encrypt_data
+    from wormhole.util import bytes_to_dict, dict_to_bytes
+    from ..worlds.mailbox import World
+    code = "4-purple-sausages"
+    with World(seed=7) as W:
+        mc.patch_world_internal_names(W)
+        a = W.add_client(delegated=True)
+        b = W.add_client(delegated=True)
+        for op in (["open", 0], ["open", 1], ["api", 0, "set_code", code]):
+            W.do(op)
+        if case["what"] == "version":
+            W.do(["api", 1, "set_code", code])
+            plaintext = KEYHOLDER_VERSIONS[case["name"]]
+            for _ in range(200):
+                moved = False
+                for cl in (a, b):
+                    if cl.conn is not None and cl.conn.c2s:
+                        if cl is b and plaintext is not None:
+                            m = bytes_to_dict(cl.conn.c2s[0])
+                            if m.get("type") == "add" and m.get("phase") == "version":
+                                # the key holder seals a plaintext of its own choosing under the right phase key
+                                m["body"] = encrypt_data(derive_phase_key(b.boss._R._key, b.side, "version"), plaintext).hex()
+                                cl.conn.c2s[0] = dict_to_bytes(m)
+                        W.c2s(cl.index)
+                        moved = True
+                    if mc.readable(cl):
+                        W.s2c(cl.index)
+                        moved = True
+                if not moved:
+                    break
+        else:
+            # a third side posts an `add` whose fields are not what a wormhole client sends, THROUGH THE REAL SERVER
+            # (bind, claim, open, add — the server's handle_add checks only that `phase` and `body` are present)
+            spec = _frame_fields()[case["name"]]
+            W.settle()
+            from ..worlds.mailbox import Conn
+
+            class _X:
+                index = 9
+            x = Conn(W, _X())
+            x.sp.onOpen()
+            mbox = [m for m in W.sent[0] if m.get("type") == "open"][0]["mailbox"]
+            for fr in ([dict(type="bind", appid="verif.example/app", side=spec.get("side", "7h1rd51de")), dict(type="claim", nameplate="4"),
+                        dict(type="open", mailbox=mbox)] + [dict(type="add", id="00", **ad) for ad in spec["adds"]]):
+                x.sp.onMessage(dict_to_bytes(fr), False)
+            refused = [bytes_to_dict(p) for p in x.s2c if bytes_to_dict(p).get("type") == "error"]
+            if refused:
+                return Result([], [], [], ["keyholder", "info:frame:%s:server-refused" % case["name"]], True)
+        W.settle()
+        W.do(["api", 0, "close"])
+        W.settle()
+        verdicts = [v for n, v in a.events if n == "closed"]
+        internal = [e[-1] for e in a.internal]
+        v = verdicts[0] if verdicts else "none"
+        tag = "info:%s:%s:%s" % ("keyholder-version" if case["what"] == "version" else "frame", case["name"], v)
+        viol = []
+        if KEYHOLDER_STRICT or case["name"] == "honest":
+            for nm in internal:
+                viol.append(("internal:" + nm.split("(")[0] + ":", f"internal failure {nm} ({case['what']} {case['name']})"))
+            if v not in DOC_VERDICTS:
+                viol.append(("verdict:" + str(v), f"closed with undocumented verdict {v} ({case['what']} {case['name']})"))
+        return Result([], [], viol, ["keyholder", tag] + ["info:escaped:" + nm.split("(")[0] for nm in internal], True,
+                      info=dict(verdicts=verdicts, internal=internal))
+
+
 EXTRA_TARGETS = ["wvsearch"]
 evidence_extra = mc.cert_stats
 
@@ -156,9 +509,11 @@ def run_case(case):
         r = c18.run_pair(case)
         keep = [(sg, m) for sg, m in r.violations if sg.startswith(("internal", "second-close", "verdict:"))]
         return Result([], [], keep, ["pair"], True, info=r.info)
+    if case.get("kind") == "keyholder":
+        return run_keyholder(case)
     if "ops" in case:
-        ob, summary = mc.replay(case["ops"], welcome_error=case.get("welcome_error"), npeers=case.get("npeers"),
-                                seed=case.get("seed", 0))
+        ob, summary = replay_fine(case["ops"], welcome_error=case.get("welcome_error"), npeers=case.get("npeers"),
+                                  seed=case.get("seed", 0))
         prof = case.get("profile", "replay")
     else:
         ops, ob, summary = mc.guided(case["seed"], case["n"], case["profile"])
@@ -167,6 +522,10 @@ def run_case(case):
     nontrivial = any(l.startswith(("claimed", "msg", "released", "closed", "allocated")) for l in ob.lines)
     tags = ["profile:" + prof] + ["verdict:" + str(v) for n, v in summary["events"] if n == "closed"]
     tags += ["outcome:" + e.split(" |")[0].split("(")[0] for e in ob.expect if not e.startswith("ok")]
+    tags += list(getattr(ob, "tags", ()))          # pake-raise:<statement>:<exception class> (FineObserver)
+    if prof.startswith("pakeraise:"):
+        tags[0] = "profile:" + ":".join(prof.split(":")[:2])
+        tags.append("pakeraise-body:" + prof.split(":", 2)[2])
     return Result(ob.lines, ob.expect, viol, sorted(set(tags)), nontrivial)
 
 
@@ -183,8 +542,8 @@ def shrink(case):
     if case.get("kind") == "trace":
         yield from mc.trace_shrink(case)
         return
-    if case.get("kind") == "pair":
-        return          # generated from a seed; replayed as it is
+    if case.get("kind") in ("pair", "keyholder"):
+        return          # generated from a seed / scripted; replayed as it is
     if case.get("kind") == "real":
         if case["steps"] > 5:
             yield dict(case, steps=case["steps"] // 2)
@@ -208,6 +567,8 @@ def shrink(case):
 def search(rng, seconds, seeds):
     t0 = time.time()
     yield from mc.model_guided(trace_oracle)
+    for c in pake_raise_corpus(rng, "thorough"):
+        yield c, run_case(c)
     for c in seeds:
         yield c, run_case(c)
     while time.time() - t0 < seconds:
